@@ -872,7 +872,8 @@ class TransposedEncoding(LazyIndexMap):
         return self._data.gather(self._base_indices(indices))
 
     def mask(self, mask):
-        return self._data.mask(mask.transpose(self._inv_perm)).transpose(self._perm)
+        # values in row-major order of the transposed array
+        return self.dense[mask if isinstance(mask, np.ndarray) else mask.dense]
 
     @property
     def data(self):
